@@ -28,6 +28,7 @@ CHECK = {
         {"fn": P + "vC23_roundtrip_md", "replay": MO, "cases_quick": {"nameLen": [3], "payloadLen": [0, 2], "headers": [0, 1, 2, 3], "keyLen": [0, 2], "valLen": [1]},
          "cases_thorough": {"nameLen": [1, 4], "payloadLen": [0, 3], "headers": [0, 1, 2, 3], "keyLen": [0, 3], "valLen": [0, 2]}},
         {"fn": P + "vC23_metadata", "replay": MO, "cases": {"headers": [0, 1, 2]}, "opts": {"sym_slice_cap": 34}},
+        {"fn": P + "vC23_metadata_limit", "replay": MO, "cases_quick": {"fieldLen": [65535], "bigIsKey": [0, 1]}, "cases_thorough": {"fieldLen": [65534, 65535], "bigIsKey": [0, 1]}, "opts": {"max_array": 70000}},
         {"fn": P + "vC23_deadline", "replay": MO, "opts": {"substitute": dict(SUBST, **{"time.Now": P + "vC23_now"})}},
         {"fn": P + "vC23_concat", "replay": MO, "cases_quick": {"nameLen": [1, 3], "payloadLen": [0, 2], "firstWithMetadata": [0, 1]}, "cases_thorough": {"nameLen": [1, 2, 3, 5], "payloadLen": [0, 1, 2, 4], "firstWithMetadata": [0, 1]}},
         {"fn": P + "vC23_server", "replay": MO, "cases_quick": {"nameLen": [1, 3], "payloadLen": [0, 2], "firstWithMetadata": [0, 1]}, "cases_thorough": {"nameLen": [1, 2, 3, 5], "payloadLen": [0, 1, 2, 4], "firstWithMetadata": [0, 1]}, "opts": {"substitute": SERVER}},
@@ -45,7 +46,7 @@ CHECK = {
     ],
     "opts": {"unwind": 64, "substitute": SUBST, "sym_slice_cap": 64},
     "explanation": "internal/net: ProtoSerializer.MarshalBinary(To)/UnmarshalBinary/MarshalBinaryWithMetadata(To)/UnmarshalBinaryWithMetadata, Metadata.Set/Get/MarshalBinary/UnmarshalBinary/SetDeadline/GetDeadline/ToContext, FromContext, FindMessageType (with its sync.Map cache), readProtoFrame, Client.unmarshalProtoResponse, the whole ProtoServer.handleConn read loop incl. recover(), bucketIndex/bucketIndexExact and FramePool.Get/Put/NewFramePool are executed from their real SSA (encoding/binary too; unsafe.String/SliceData are modelled as a value snapshot with a bounds obligation). Round trip: a message (name from the protobuf identifier class, payload bytes) with and without metadata (0..2 headers, or the same key set twice) is encoded, decoded directly and through the client's format detection: same type name, same payload, same header map; the deadline is re-based exactly by the clock time between encode and decode (harness clock substituted for time.Now; a deadline that expires exactly at encode time is nudged by 1ns), i.e. within clock tolerance; two concatenated frames (one with, one without metadata, either order) are read back one by one in order by readProtoFrame+unmarshalProtoResponse and by the server loop, each with its own metadata, the frame limit being inclusive. Format detection: a frame without metadata whose name starts with a letter or '_' is refused by the metadata decoder with exactly ErrInvalidMessageLength (what makes the server fall back), a metadata frame is decoded as such and refused by the plain decoder. Robustness: UnmarshalBinary, UnmarshalBinaryWithMetadata, Metadata.UnmarshalBinary, unmarshalProtoResponse, readProtoFrame (arbitrary limit) and the server loop are run on an ARBITRARY byte string of symbolic length: every implicit panic (index, slice bounds, nil, type assertion, unsafe.String range) is an obligation; truncated/undersized/oversized input gives the documented error; success implies consistent length fields and that exactly the payload region reaches protobuf; an oversized announcement is refused before anything is allocated or read. Substituted (part of the claim): protobuf itself (proto.MessageName, MarshalOptions.Size/MarshalAppend, proto.Unmarshal, protoregistry FindMessageByName) = a message is (name, payload bytes) with Unmarshal(Marshal(m)) = m, one registered type, payloads starting 0xFF are 'corrupt'; io.ReadFull = reads from one symbolic in-memory stream (EOF / ErrUnexpectedEOF like the real one); context.WithValue = harness value context; for the server loop additionally FramePool.Get/Put = plain make (the pool's size classes are checked separately, fully symbolically) and get/putPooledReader = nil reader.",
-    "bounds": {'round trip': 'name 1..4 bytes (thorough 1..6), payload 0..3 bytes (thorough 0..5), lengths enumerated per job, contents symbolic; headers: 0, 1, 2 keys of different length, or one key set twice; keys 0..3, values 0..3 bytes', 'metadata codec alone': '0..2 headers with keys and values of SYMBOLIC length <= 3 and symbolic contents (equal keys included)', 'deadline': 'any deadline and clock readings in (0, 2^62) ns, clock non-decreasing', 'arbitrary input': 'buffers of symbolic length <= 16 (plain) / 24 (metadata frame, client response, stream) / 20 (metadata) bytes; server loop <= 18 bytes quick, 24 thorough with frame limit <= 32; symbolic allocations bounded by 64 (32) elements, which the frame limit / buffer length already imply on the unchanged code', 'frame pool': 'bucketIndex for every n in [0, 2^40], bucketIndexExact for every cap >= 0 (loops unrolled 66 times); Get/Put/Get on sizes 0,256,257 / 300 (more in thorough)', 'wire limits': 'header counts and key/value lengths far below the 65535 limits of the statement (uint16 truncation at >= 65536 is outside the bounds)'},
+    "bounds": {'round trip': 'name 1..4 bytes (thorough 1..6), payload 0..3 bytes (thorough 0..5), lengths enumerated per job, contents symbolic; headers: 0, 1, 2 keys of different length, or one key set twice; keys 0..3, values 0..3 bytes', 'metadata codec alone': '0..2 headers with keys and values of SYMBOLIC length <= 3 and symbolic contents (equal keys included)', 'deadline': 'any deadline and clock readings in (0, 2^62) ns, clock non-decreasing', 'arbitrary input': 'buffers of symbolic length <= 16 (plain) / 24 (metadata frame, client response, stream) / 20 (metadata) bytes; server loop <= 18 bytes quick, 24 thorough with frame limit <= 32; symbolic allocations bounded by 64 (32) elements, which the frame limit / buffer length already imply on the unchanged code', 'frame pool': 'bucketIndex for every n in [0, 2^40], bucketIndexExact for every cap >= 0 (loops unrolled 66 times); Get/Put/Get on sizes 0,256,257 / 300 (more in thorough)', 'wire limits': 'key/value length limit: one header whose key or value is 65534 or exactly 65535 bytes (all bytes symbolic) followed by an ordinary header goes through Metadata.MarshalBinary/UnmarshalBinary (entry vC23_metadata_limit); header COUNT stays far below 65535; lengths >= 65536 (uint16 truncation) are outside the statement'},
     "assumptions": ["protobuf's own wire codec is trusted (inverse pair on payload bytes)", "type names are protobuf full names (first byte a letter or '_'), as for every generated message", 'map iteration order is insertion order in the executor (Metadata.MarshalBinary iterates its map twice; the computed size does not depend on the order)', 'unsafe.String results are value snapshots: later mutation of the frame buffer through aliasing is not modelled (pooled-buffer reuse after decode is outside this check)', 'int is 64 bit'],
-    "timeout_ms": {"quick": 900000, "thorough": 1800000},
+    "timeout_ms": {"quick": 1500000, "thorough": 1800000},
 }
